@@ -38,10 +38,10 @@ def MissingOptionalSkipped
       load penv fs (pre ++ f :: post) acc = load penv fs (pre ++ post) acc
 
 /-- `a.env` is a regular file, the service lists `a.env/x` with `required: false` -/
-def witnessFS : FS := fun p =>
+def witnessFS : FS := { node := fun p =>
   if p = ['a', '.', 'e', 'n', 'v'] then some (.file [.assign ['A'] [.lit ['1']]])
   else if p = ['a', '.', 'e', 'n', 'v', '/', 'x'] then some .notdir
-  else none
+  else none }
 
 def witnessFile : EnvFile := ⟨['a', '.', 'e', 'n', 'v', '/', 'x'], false, []⟩
 
